@@ -33,6 +33,7 @@ type Model struct {
 	QID, QMethod, QParams *types.Var
 
 	Problems []string
+	Scoped   []string // anchor problems that concern a single rule family; reported by that family
 }
 
 func (m *Model) problem(format string, args ...any) {
@@ -132,7 +133,14 @@ func Resolve(p *ir.Prog) *Model {
 	m.SUsed = m.field(s, "in-flight id table", "used", isType("map[string]context.CancelFunc"))
 	m.SCall = m.field(s, "callback table", "call", isType(respMap))
 	m.SCallID = m.field(s, "callback id counter", "callID", isType("int64"))
+	// the semaphore matters to the concurrency-limit rules only: a failure to resolve it is
+	// reported there (Scoped), not by every property
+	nprob := len(m.Problems)
 	m.SSem = m.field(s, "semaphore", "sem", isType("*golang.org/x/sync/semaphore.Weighted"))
+	if len(m.Problems) > nprob {
+		m.Scoped = append(m.Scoped, m.Problems[nprob:]...)
+		m.Problems = m.Problems[:nprob]
+	}
 	m.SMux = m.field(s, "assigner", "mux", isType(mp+".Assigner"))
 	// two bools: told apart by name (tie-break only)
 	m.SAllowP = m.field(s, "allow push", "allowP", func(t types.Type, s string) bool { return s == "bool" && false })
